@@ -46,6 +46,7 @@ type Engine struct {
 	closures  map[closureKey]*closureInfo
 	modsets   map[*ssa.Function]*modset
 	implCache map[string][]*ssa.Function
+	exemptFreshArgs bool // set while a function body is scanned for its inferred frame
 	moduleTypes []types.Type
 	srcFiles  map[string][]byte
 	SpecErrors []string
